@@ -343,8 +343,12 @@ End Standard.
 
 (* the rendering used by the correspondence runs: [path ':' | path '-'] line [terminator if missing]
    (no line numbers, no heading, no colour, no column, no replacement) *)
-Definition simple_render (path : option bytes) (lt : byte) (ev : event) : bytes :=
-  let pre (sep : byte) := match path with Some p => p ++ [sep] | None => [] end in
+Definition simple_render (path : option bytes) (pterm : option byte) (lt : byte) (ev : event) : bytes :=
+  (* PreludeWriter::write_path: the path is followed by the path terminator (-0/--null) if one is configured,
+     else by the field separator (':' for a match, '-' for a context line) *)
+  let pre (sep : byte) := match path with
+                          | Some p => p ++ [match pterm with Some t => t | None => sep end]
+                          | None => [] end in
   let body (l : bytes) := if is_suffix_of [lt] l then l else l ++ [lt] in
   match ev with
   | EMatched _ l => pre 58%N ++ body l
@@ -362,7 +366,8 @@ Record sum_cfg := mk_sum_cfg {
   mc_exclude_zero : bool;
   mc_path : option bytes;
   mc_lt : bytes;
-  mc_sep_field : bytes }.            (* separator_field, ":" *)
+  mc_sep_field : bytes;              (* separator_field, ":" *)
+  mc_path_term : option byte }.      (* path_terminator (-0/--null) *)
 
 Record sum_sink := mk_sum { ms_match_count : nat; ms_bin : option nat; ms_out : bytes }.
 
@@ -379,8 +384,13 @@ Definition sum_step (cfg : sum_cfg) (st : sum_sink) (ev : event) : sum_sink * bo
   | EContext _ _ _ | EBreak | EBinary _ => (st, true)
   | EFinish _ bin =>
     if is_some bin && is_quit (mc_mode cfg) then (mk_sum 0 bin (ms_out st), true) else
-    let path_field := match mc_path cfg with Some p => p ++ mc_sep_field cfg | None => [] end in
-    let path_line := match mc_path cfg with Some p => p ++ mc_lt cfg | None => [] end in
+    (* write_path_field / write_path_line: the path terminator replaces the separator / the line terminator *)
+    let path_field := match mc_path cfg with
+                      | Some p => p ++ match mc_path_term cfg with Some t => [t] | None => mc_sep_field cfg end
+                      | None => [] end in
+    let path_line := match mc_path cfg with
+                     | Some p => p ++ match mc_path_term cfg with Some t => [t] | None => mc_lt cfg end
+                     | None => [] end in
     let show_count := negb (mc_exclude_zero cfg) || Nat.ltb 0 (ms_match_count st) in
     let o :=
       match mc_kind cfg with
